@@ -59,7 +59,6 @@ PROBES = {
         "insert:before-first",
         "insert:after-last",
         "insert:three-way-split",
-        "overlay-created",
         "edge:added",
         "sweep:stopped-at-short-window",
         "block:delay-slot",
@@ -490,7 +489,7 @@ class Case(object):
     def check_graph(self, tag):
         G = self.G
         if G.overlay is not None:
-            self.st.hit("probe:overlay-created")
+            self.st.hit("overlay-created(must-stay-0-for-one-stream-workloads)")
         nodes = self.support_nodes()
         cov = {}
         prev_end = None
